@@ -259,6 +259,28 @@ func cleanupLogic(c *Ctx) {
 		pos, _ = an.ImpliesDNF(got, an.DNF{conj(lit(sL, an.SPos|an.SZero))})
 	}
 	q.add("COND", "shift >= 0 at the reslice", pos, pickS(pos, "every path to buffer[s:] established s >= 0", "the reslice is reachable with a negative shift (negative cleaner results must be ignored, not applied): "+got.String()), sl)
+	// a pass that reports "changed" has removed at least one value: the cleaner goroutine repeats the pass while it
+	// reports a change (holding the buffer's lock), so a change that removes nothing would never end
+	for _, r := range returnsOf(q.fn) {
+		vs := c.retVals(r, 0)
+		mayTrue := false
+		for _, v := range vs {
+			if b, isB := constBool(v); !isB || b {
+				mayTrue = true
+			}
+		}
+		if !mayTrue {
+			continue
+		}
+		// the value of the shift that was applied: the reslice's low bound (after clamping)
+		g := P.PathCond(q.fn, nil, r, keepForms(sL))
+		okp := len(g) > 0 && P.Before(q.fn, an.Is(sl), r)
+		if okp {
+			okp, _ = an.ImpliesDNF(g, an.DNF{conj(lit(sL, an.SPos))})
+		}
+		q.add("COND", "a cleanup pass reports a change only if it removed at least one value", okp,
+			pickS(okp, "the true return is reached only after buffer[s:] with s > 0 (tested after the clamp)", "cleanupLogic can report a change after a shift of 0 (e.g. the clamp to len(buffer) applied after the s <= 0 test): the cleaner repeats the pass for ever with the buffer locked"), r)
+	}
 	// upper bound: s <= len(buffer)
 	// (the value may come out of a helper that is analysed as part of this function)
 	low, lowFn := sl.Low, q.fn
